@@ -61,9 +61,12 @@ func UtxoValidateOutsideValidityIntervalUtxo(
 	if validityIntervalStart == 0 || slot >= validityIntervalStart {
 		// The upper bound (invalid_hereafter) is exclusive: the transaction
 		// is only valid at slots strictly before it
-		if ttl := tx.TTL(); ttl != 0 && slot >= ttl {
+		// Presence of the bound comes from the original body bytes, so that
+		// an explicitly encoded invalid_hereafter of 0 (never valid) is not
+		// mistaken for an absent one
+		if _, end := common.TxValidityInterval(tx); end != nil && slot >= *end {
 			return shelley.ExpiredUtxoError{
-				Ttl:  ttl,
+				Ttl:  *end,
 				Slot: slot,
 			}
 		}
